@@ -21,6 +21,7 @@ VERIF = os.path.dirname(os.path.dirname(os.path.abspath(__file__)))
 PY = os.path.join(VERIF, '.venv', 'bin', 'python')
 WORKER = os.path.join(VERIF, 'vlib', 'worker.py')
 REPO = os.environ.get('VERIF_REPO', '/repo')
+EVIDENCE_DIR = os.environ.get('VERIF_EVIDENCE_DIR', os.path.join(VERIF, 'evidence'))  # redirected only when a seeded change is tried in a scratch tree
 
 
 def ensure_venv() -> None:
@@ -121,7 +122,7 @@ class Report:
 			return []
 
 	def write_replay(self, name: str, payload: dict) -> str:
-		d = os.path.join(VERIF, 'evidence', 'replays')
+		d = os.path.join(EVIDENCE_DIR, 'replays')
 		os.makedirs(d, exist_ok=True)
 		path = os.path.join(d, f'{self.prop}-{name}.json')
 		with open(path, 'w') as f:
@@ -245,6 +246,22 @@ class Report:
 				else:
 					o['confirmed'] += 1
 
+	def run_closed(self, obligation: str, module: str, func: str, case: dict, bound: str) -> None:
+		"""closed obligation (C): a harness function without free variables, evaluated directly against the real code"""
+		ensure_venv()
+		t0 = time.time()
+		rp = replay(module, func, {}, case)
+		secs = time.time() - t0
+		if rp.get('state') == 'error':
+			self.error(f'{obligation}: {rp.get("detail")} {rp.get("traceback", "")[-800:]}')
+			return
+		if rp.get('reproduced'):
+			self.ob(obligation, 'C', bound)
+			self.add_direct(obligation, 'C', bound, 'refuted', cpu_s=secs)
+			self.violation(obligation, f'{func}() fails: {rp.get("raised") or rp.get("returned")} | {rp.get("explain", "")}', {'property': self.prop, 'obligation': obligation, 'module': module, 'func': func, 'args': {}, 'case': case, 'replay': rp})
+		else:
+			self.add_direct(obligation, 'C', bound, 'confirmed', cpu_s=secs, sample={'obligation': obligation, 'closed': f'{module}.{func}()', 'verdict': 'holds (evaluated directly, no free variable)'})
+
 	# -- closed / direct obligations ------------------------------------------
 	def add_direct(self, obligation: str, kind: str, bound: str, status: str, detail: str = '', cpu_s: float = 0.0, sample=None, queries: int = 1) -> None:
 		"""status: confirmed | inconclusive (violations go through .violation / .known_finding)"""
@@ -305,8 +322,8 @@ class Report:
 			'wall_s': round(time.time() - self.t0, 1),
 			'violations': len(self.violations),
 		}
-		os.makedirs(os.path.join(VERIF, 'evidence'), exist_ok=True)
-		with open(os.path.join(VERIF, 'evidence', f'{self.prop}.json'), 'w') as f:
+		os.makedirs(EVIDENCE_DIR, exist_ok=True)
+		with open(os.path.join(EVIDENCE_DIR, f'{self.prop}.json'), 'w') as f:
 			json.dump(ev, f, indent=1, default=repr)
 		self.say(f'{self.prop} {self.tier}: obligations(cases)={n_cases} discharged={n_conf} inconclusive={n_inc} vacuous_splits={n_vac} '
 			f'violations={len(self.violations)} known={len(self.known)} errors={len(self.errors)} paths={self.paths} cpu={self.cpu:.0f}s wall={time.time() - self.t0:.0f}s')
@@ -317,3 +334,14 @@ class Report:
 		if self.errors:
 			sys.exit(2)
 		sys.exit(0)
+
+
+def class_splits(classes: list, k: int, n: int) -> list:
+	"""case fragments: all texts shorter than k in one job, then one job per choice of classes for the first k characters"""
+	import itertools
+	out = []
+	if k > 0:
+		out.append({'classes': classes, 'prefix': [], 'n': k - 1})
+	for t in itertools.product(range(len(classes)), repeat=k):
+		out.append({'classes': classes, 'prefix': list(t), 'n': n})
+	return out
